@@ -3,6 +3,7 @@ import WellenModel.Model.Offset
 import WellenModel.Model.Spec
 import WellenModel.Model.VcdBody
 import WellenModel.Model.HierDump
+import WellenModel.Model.Slice
 /-
 `wmdriver`: reads one request per line on stdin, answers `<model reply>\t<spec reply>` per line.
 Imports only the import-free `Model` modules (the same definitions the theorems are about).
@@ -113,6 +114,38 @@ def handleStore (types ops : String) : String × String :=
   | some ts, some os =>
     ((modelStore ts os).getD "panic", specStore ts os)
   | _, _ => ("bad-request", "-")
+
+/-! ### slices (C13) -/
+open Wellen.Bits Wellen.Store Wellen.Spec Wellen.Slice in
+/-- `slice <width> <ops> <msb> <lsb>`: one parent signal of the given width, then slice_signal -/
+def handleSlice (ws ops ms ls : String) : String × String :=
+  match ws.toNat?, (if ops = "-" then some [] else (ops.splitOn ";").mapM parseOp), ms.toNat?, ls.toNat? with
+  | some w, some os, some msb, some lsb =>
+    let types := [SigType.bitvec w]
+    let c := driverCodec
+    let rbits := msb - lsb + 1
+    let m : String := Id.run do
+      match runOps c (newEnc types) os with
+      | none => return "panic"
+      | some e =>
+        let (r, _) := finish c e
+        match loadSignal r 0 (.bitvec w) with
+        | none => return "panic"
+        | some l =>
+          match sliceSignal l w msb lsb with
+          | none => return "panic"
+          | some sl => return (showLoaded (.bitvec rbits) sl).getD "panic"
+    let sp : String := match Spec.run types os with
+      | none => "-"
+      | some (_, sigs) =>
+        if msb ≥ w ∨ msb < lsb ∨ w < 2 ∨ rbits ≥ w then "-" else
+        let l := (sigs.headD []).map fun (t, v) => match v with
+          | .bits syms => (t, Value.bits ((syms.drop (w - 1 - msb)).take rbits))
+          | v => (t, v)
+        let l := canon l
+        if l.isEmpty then "-" else ",".intercalate (l.map fun (t, v) => s!"{t}={showSpecValue v}")
+    (m, sp)
+  | _, _, _, _ => ("bad-request", "-")
 
 /-! ### whole VCD bodies -/
 open Wellen.Bits Wellen.Store Wellen.Spec Wellen.VcdBody in
@@ -309,6 +342,7 @@ def handleVcd (opts vars rmap body : String) : String × String :=
 
 def handle (line : String) : String × String :=
   match splitSp line with
+  | ["slice", w, ops, msb, lsb] => handleSlice w ops msb lsb
   | ["hier", ops] => Wellen.Hier.handle ops
   | ["vcd", opts, vars, rmap, body] => handleVcd opts vars rmap body
   | ["vcdmt", opts, vars, rmap, body] => handleVcdMt opts vars rmap body
